@@ -121,6 +121,43 @@ def check_cursor_limit(ctx, facts, rid="C06.1"):
     ctx.floor(rid, "allocator functions inspected for stores to the record's limit", n, 2)
 
 
+def check_alloc_rounding(ctx, facts, rid="C06.1"):
+    """alloc_block reserves whole units: the number of units is the request rounded UP to DEFAULT_BLOCK_SIZE by a recognised
+    idiom ((x + D - 1) / D, (x - 1) / D + 1 with x > 0 established, div_ceil, next_multiple_of).  `x / D + 1` reserves a
+    unit too many for an exact multiple: recovery, which rebuilds block ids by counting units, then numbers every later
+    block one higher than the running process did, and persisted tail positions (block id) point at the wrong block."""
+    D = facts.const_val("config::DEFAULT_BLOCK_SIZE")
+    try:
+        b = facts.body("allocator::BlockAllocator::alloc_block")
+    except Exception:
+        ctx.anchor_missing(rid, "allocator::BlockAllocator::alloc_block")
+        return
+    n = 0
+    for site, st in b.assigns():
+        rv = st["rv"]
+        if not (rv["k"] == "bin" and str(rv["op"]) in ("Mul", "MulWithOverflow")):
+            continue
+        ea, eb = strip_refs(expr(b, rv["a"])), strip_refs(expr(b, rv["b"]))
+        if fmtfeat.const_eval(eb) == D:
+            units = ea
+        elif fmtfeat.const_eval(ea) == D:
+            units = eb
+        else:
+            continue
+        n += 1
+        sh = show(units, 10)
+        ok = bool(re.match(r"^Div\(Sub\(Add\(\w+, %d\), 1\), %d\)$" % (D, D), sh) or re.match(r"^Div\(Add\(\w+, %d\), %d\)$" % (D - 1, D), sh)
+                  or re.search(r"div_ceil\(|next_multiple_of\(", sh))
+        if ok:
+            ctx.ok(rid, "allocator::BlockAllocator::alloc_block", "units = request rounded up to whole units (%s)" % sh[:60], b.relfile, site.line)
+        else:
+            ctx.violate(rid, "allocator::BlockAllocator::alloc_block", "allocation-rounding-not-a-ceiling", b.relfile, site.line,
+                        "alloc_block sizes the reservation as (%s) units: not a recognised round-up of the request to whole units. `x / D + 1` reserves one unit too many for an "
+                        "exact multiple; recovery numbers blocks by counting units, so after a restart every later block has another id than before and persisted tail positions "
+                        "name the wrong block" % sh[:70])
+    ctx.floor(rid, "unit computations in alloc_block", n, 1)
+
+
 def unit_iter_loop(facts, b):
     """The per-file unit loop written over an iterator: `for off in (0..N).map(|u| u * DEFAULT_BLOCK_SIZE)` (or
     `.step_by(DEFAULT_BLOCK_SIZE)` over `0..MAX_FILE_SIZE`).  Returns (next-call site, loop blocks, Some edge, None edge) or None.
@@ -434,6 +471,7 @@ def run(ctx):
     facts = common.mir(ctx, "walrus_rust")
     check_layout(ctx, facts)
     check_cursor_limit(ctx, facts)
+    check_alloc_rounding(ctx, facts)
     check_scan(ctx, facts)
     check_entry_scan_bound(ctx, facts)
     check_scan_stride(ctx, facts)
